@@ -216,6 +216,56 @@ func fit(ty string, v *J) (*J, int) {
 			return nil, bindUnknown
 		}
 		return nil, bindNo
+	case "vslice", "vmap":
+		// every element / value is a vstruct; a nil pointer (map value null) is not validated
+		var items []KV
+		switch {
+		case v.K == '[' && ty == "vslice":
+			for _, e := range v.A {
+				items = append(items, KV{"", e})
+			}
+		case v.K == '{' && ty == "vmap":
+			if hasDupKeys(v) {
+				return nil, bindUnknown
+			}
+			items = v.O
+		case v.K == 'n':
+			return nil, bindUnknown
+		default:
+			return nil, bindNo
+		}
+		out := &J{K: v.K}
+		unknown, no := false, false
+		for _, it := range items {
+			var a *J
+			st := bindOK
+			if ty == "vmap" && it.V.K == 'n' {
+				a = jNull()
+			} else {
+				a, st = fit("vstruct", it.V)
+			}
+			switch st {
+			case bindNo:
+				no = true
+			case bindUnknown:
+				unknown = true
+			}
+			if v.K == '[' {
+				out.A = append(out.A, a)
+			} else {
+				out.O = append(out.O, KV{it.K, a})
+			}
+		}
+		switch {
+		case no && !unknown:
+			return nil, bindNo
+		case no || unknown:
+			return nil, bindUnknown
+		}
+		if out.A == nil {
+			out.A = []*J{}
+		}
+		return out, bindOK
 	case "bounds":
 		switch v.K {
 		case '{':
